@@ -183,12 +183,17 @@ def values(res):
     return [r[1] for r in res]
 
 
-def dt_online(text, names, data, n=None, times=None, kind='dt', sd=None, pastify=False):
-    """Parse a fresh spec, feed the samples one by one, return the list of update() values."""
+def dt_online(text, names, data, n=None, times=None, kind='dt', sd=None, pastify=False, prelude=None):
+    """Parse a fresh spec, feed the samples one by one, return the list of update() values.
+    prelude: {var: [values]} of an earlier run on the same object, which is fed first and followed by reset()."""
     sdd = {'text': text, 'vars': list(names)}
     if sd:
         sdd.update(sd)
     m = Mon(kind, sdd, pastify=pastify)
+    if prelude:
+        for i in range(len(prelude[names[0]])):
+            m.update(i, [(v, prelude[v][i]) for v in names])
+        m.reset()
     if n is None:
         n = len(next(iter(data.values())))
     out = []
